@@ -782,6 +782,51 @@ func rulesC10(p *Prog, r *Report) {
 		}
 	}
 
+	// R10.12 V2 settlement pays out what was collected, not what was still open ------------------
+	// The settlement callbacks of the liquidation module receive the liquidation record and the
+	// auction. Auction.DebtToken is the debt STILL TO BE collected (every bid reduces it): a
+	// payout out of auction custody sized by it hands over only the closing bid's share and
+	// leaves the earlier bids' payments in custody.
+	r.Rule("R10.12", "V2 settlement: no payout out of auction custody is sized by the auction's remaining debt (Auction.DebtToken)", 1)
+	for _, fn := range p.Funcs {
+		if moduleOf(fn) != "liquidationsV2" || p.isAuxFn(fn) || len(fn.Blocks) == 0 {
+			continue
+		}
+		var auctionParam *ssa.Parameter
+		for _, pr := range fn.Params {
+			if namedTypeName(derefAll(pr.Type())) == "Auction" {
+				auctionParam = pr
+			}
+		}
+		if auctionParam == nil {
+			continue
+		}
+		n := 0
+		for _, c := range calls(fn) {
+			be := bankEffect(c)
+			if be == nil || moduleName(be.From) != auctionV2Mod {
+				continue
+			}
+			n++
+			r.Instance("R10.12")
+			r.FuncsSeen[fname(fn)] = true
+			construct := fmt.Sprintf("%s payout #%d", fname(fn), n)
+			bad := false
+			for _, o := range p.DeepOrigins(be.Coins) {
+				if o.Kind == "param" && o.Val == ssa.Value(auctionParam) && len(o.Path) > 0 && o.Path[0] == "DebtToken" {
+					if len(o.Path) == 1 || o.Path[len(o.Path)-1] == "Amount" {
+						bad = true
+					}
+				}
+			}
+			if bad {
+				r.Fail("R10.12", construct, "the amount leaving auction custody is the auction's REMAINING debt (Auction.DebtToken), not what was collected (the liquidation record's target): after partial bids the earlier payments stay in custody unaccounted", p.instrPos(c), nil)
+			} else {
+				r.OK("R10.12", construct, "not sized by the remaining debt", p.instrPos(c))
+			}
+		}
+	}
+
 	// R10.2 ------------------------------------------------------------------------
 	r.Rule("R10.2", "V2 collateral amounts come from the stored auction price and the debt price; reserve top-up from the auction's remaining debt", 3)
 	{
